@@ -173,6 +173,12 @@ func configs(tier string) []config {
 			shard(config{Kind: "jb", Min: min, Seqs: seqs3, Peeks: false, Depth: 6})
 		}
 	}
+	// minimum-start count 0 ("all minimum-start counts"): playback starts with the first packet buffered
+	if thorough {
+		shard(config{Kind: "jb", Min: 0, Seqs: seqs3, Peeks: true, Depth: 6})
+	} else {
+		shard(config{Kind: "jb", Min: 0, Seqs: seqs3, Peeks: true, Depth: 4})
+	}
 	// PriorityQueue
 	if thorough {
 		shard(config{Kind: "pq", Seqs: seqs6, Peeks: true, Depth: 7})
@@ -250,7 +256,7 @@ func init() {
 		ID: "C18",
 		Rule: "E2 explicit-state search (breadth-first, every history replayed on a fresh instance inside vsched.Run with a step budget; states distinct by deep hash of the " +
 			"implementation + reference): (jb) all histories up to the depth over Push(seq,ts in {a,b}), Pop, PopAtSequence(seq), PopAtTimestamp(ts), Clear(true|false), " +
-			"SetPlayoutHead(seq) [and, in the configurations with peek symbols, Peek(true|false), PeekAtSequence(seq)] on jitterbuffer.New(WithMinimumPacketCount(1|2|3)), " +
+			"SetPlayoutHead(seq) [and, in the configurations with peek symbols, Peek(true|false), PeekAtSequence(seq)] on jitterbuffer.New(WithMinimumPacketCount(0|1|2|3)), " +
 			"seq over {65535,0}, {65535,0,1} or {65534,65535,0,1,2,3}; (pq) the same on the exported PriorityQueue (Push, Pop, PopAt, PopAtTimestamp, Clear, Find; Length after every operation); " +
 			"(icpt) the RTPReader returned by the receiver interceptor after a scripted prefix (49 in-order packets; 1 packet, one lost, 47 packets; 47 packets; 60 packets + " +
 			"UnbindRemoteStream/BindRemoteStream + 49 packets; first number 65500 so that the wrap lies inside the buffer, or 100) followed by all suffixes over " +
